@@ -216,7 +216,7 @@ def main(argv: list[str] | None = None) -> int:
     mod = importlib.import_module(f"harness.{prop}")
     conds = [c for c in conditions_of(mod) if tier in c.tiers]
     if a.only:
-        conds = [c for c in conds if a.only in c.name]
+        conds = [c for c in conds if a.only in c.name or c.name in a.only]
     if a.timeout_scale != 1:
         for c in conds:
             c.timeout *= a.timeout_scale
@@ -227,6 +227,8 @@ def main(argv: list[str] | None = None) -> int:
 
     tasks: list[Task] = []
     for c in conds:
+        if c.grid_only:
+            continue
         kf = [f for f in findings if f["condition"] == c.name]
         not_regions = [f"not ({f['region']})" for f in kf]
         for sh in c.shards(tier):
@@ -239,6 +241,9 @@ def main(argv: list[str] | None = None) -> int:
                     shards = [s for s in shards if all(s.get(k) == v for k, v in f["shard"].items())]
                 for sh in shards:
                     tasks.append(Task(c, sh, f"kf{i}", [f["region"]], tier, finding=f))
+
+    if a.only:
+        tasks = [t for t in tasks if a.only in gen.wrapper_name(t.c, t.shard, t.mode)]
 
     scratch = tempfile.mkdtemp(prefix="vf_")
     grids: dict[str, dict] = {}
